@@ -24,18 +24,18 @@ def _t(level_text, level_note, technique, **kw):
 _NOTE = "Trusts: the harness's shadow model (self-validated by lock-step traversal), the tracking allocator, rustc/ASan/Miri. Held on the executions produced only."
 
 TEXT = {
-    "C01": _t("Online monitor M-live: every destructor run and every release of a Gc block is judged against shadow reachability at the event, and every reachable pointer is dereferenced and compared after every callback, across 10^5-10^6 random histories (12 object kinds, all collection methods incl. single-object steps, 4 pacing modes, empty and non-empty initial arenas), the bounded-exhaustive barrier scenario matrix, and a breadth-first explorer (BEX) over three tiny universes; natively (debug+release), under AddressSanitizer, a Miri sample, valgrind in thorough.", _NOTE, "runtime monitor over shadow graph + allocator/destructor logs; ASan"),
+    "C01": _t("Online monitor M-live: every destructor run and every release of a Gc block is judged against shadow reachability at the event, and every reachable pointer is dereferenced and compared after every callback, across 10^5-10^6 random histories (12 object kinds, all collection methods incl. single-object steps, 4 pacing modes, empty and non-empty initial arenas), the bounded-exhaustive barrier scenario matrix, and a breadth-first explorer (BEX) over three tiny universes, and scale histories (60-600 live objects, bulk adoption by >128 distinct parents in one callback, wide containers, wrap-indirection, long garbage runs, 140 kB blocks); natively (debug+release), under AddressSanitizer, a Miri sample, valgrind in thorough.", _NOTE, "runtime monitor over shadow graph + allocator/destructor logs; ASan"),
     "C02": _t("Audit oracle M-exact at generator-chosen points in every phase: after finish_cycle x2 the destructed set must equal the unreachable set and total_gc_count / live blocks must equal |reachable| + |weakly held shells|.", _NOTE, "runtime audit oracle vs shadow reachability"),
     "C03": _t("Boundary monitor M-xor: destructor and release events are bracketed by the API call they occur in; any event in callback (or non-collection) context, or an invalid stack-held pointer at callback end, is a violation; random histories plus table c03 (every callback kind x EVERY collector step count x 4 debt levels x 3 bodies x 3 pacings).", _NOTE, "event-log bracketing monitor"),
-    "C04": _t("M-once at every arena drop: token count exactly 1, every Gc block released once with the requested layout, count reads 0; random histories plus table c04 (6 heap contents x arena dropped after EVERY step count k x late allocations); ASan/LSan and Miri for non-Gc memory.", _NOTE, "destructor/allocator log conservation check; LSan"),
-    "C05": _t("M-weak judges every upgrade / is_dropped / shell release against destructor log, reachability and phase; upgraded-and-stored targets fall under M-live.", _NOTE, "runtime monitor of weak-pointer queries"),
+    "C04": _t("M-once at every arena drop: token count exactly 1, every Gc block released once with the requested layout, count reads 0; random histories plus table c04 (6 heap contents x arena dropped after EVERY step count k x late allocations); destructor-panic faults (random, and enumerated at EVERY destructor index of every collection call / arena drop of clean schedules) with the tolerant oracle of DESIGN.md section 7; scale histories; ASan/LSan and Miri for non-Gc memory.", _NOTE, "destructor/allocator log conservation check; LSan"),
+    "C05": _t("M-weak judges every upgrade / is_dropped / shell release against destructor log, reachability and phase; upgraded-and-stored targets fall under M-live; includes destructor-panic faults (is_dropped must be true and upgrade must fail for a target whose destructor panicked) and scale histories with heaps spread over megabytes.", _NOTE, "runtime monitor of weak-pointer queries"),
     "C06": _t("Bounded-exhaustive scenario matrix over barrier path x child state x trace order x every collector step count x drain mode, judged by M-live/M-weak/M-panic; hook snapshot used only to classify colour cells reached.", _NOTE, "enumerated scenario matrix under runtime monitors"),
     "C07": _t("M-final: is_dead/resurrect results inside finalize vs shadow reachability (clean-cycle rule), Marking-after-revival, protected closure until cycle end; finalize-heavy random histories plus table c07 (dead sub-graph, every subset of 4 dead objects resurrected, stored or not, 3 marking granularities, 1-2 rounds, resurrection of unmarked children reached through dead objects).", _NOTE, "runtime monitor of finalization queries"),
     "C08": _t("M-phase: online trace checker of per-method phase contracts over collection_phase() samples around every call of every history (also on the calls that follow a caught panic), a Sweeping-crossing monitor (objects allocated during a sweep cannot be released by a cycle_debt/finish_cycle entered in that sweep), plus table c08 (12 methods x EVERY collector step count x 4 debt levels x 3 pacings).", _NOTE, "online trace checker (phase protocol)"),
     "C09": _t("M-pace over pacing workloads (bursts, survivor chains reached weakly-then-strongly, all-garbage, shells, barrier storms on small heaps): debt paid by debt-driven calls, completion bound A < rho*H/(1-rho) (bounded restatement of 'cycles always complete'), stop-the-world, sleep rule with exact debt past the wake-up amount; knowledge the monitor cannot infer is Unknown and the check skipped and counted.", _NOTE, "runtime pacing monitor over debt/count/phase samples"),
-    "C10": _t("M-metrics: total_gc_count vs allocator registry, debt finiteness/sign/monotonicity, adjust_debt exactness, arithmetic-fault capture, in debug and release; metrics-heavy random histories plus table c10 (8 barrier forms x 9 parent kinds x 0-3 other traced objects x 1-4 rounds within one marking phase).", _NOTE, "runtime metrics monitor vs tracking allocator"),
+    "C10": _t("M-metrics: total_gc_count vs allocator registry, debt finiteness/sign/monotonicity, adjust_debt exactness, arithmetic-fault capture, in debug and release; metrics-heavy random histories plus table c10 (8 barrier forms x 9 parent kinds x 0-3 other traced objects x 1-4 rounds within one marking phase; trace-fault accounting rows: wide container x k steps x trace panic at every event position, then a barrier on every reachable object) and scale histories with trace faults.", _NOTE, "runtime metrics monitor vs tracking allocator"),
     "C11": _t("Fault enumeration: injected panic at every trace-event position of every collection call and every body position of every callback kind of clean schedules, failing constructors; C01-C05 monitors judge the continued history, differentially against the fault-free twin.", _NOTE, "fault injection at enumerated points + base monitors", ),
-    "C14": _t("M-roots: shadow multiset of handles vs survival (M-live/M-exact), fetch identity, foreign-handle rejection, handles outliving the arena.", _NOTE, "runtime monitor of dynamic roots"),
+    "C14": _t("M-roots: shadow multiset of handles vs survival (M-live/M-exact), fetch identity, foreign-handle rejection, handles outliving the arena; scale histories with batches of up to 520 handles per set emptied down to boundary survivors.", _NOTE, "runtime monitor of dynamic roots"),
     "C20": _t("M-frame before/after every op on another arena plus bit-exact projection equality against a lone-arena replay, on random multi-arena interleavings.", _NOTE, "frame + projection (differential replay) monitors"),
     "C17": _t("Geometry + byte-pattern + round-trip monitors over a generated layout grid, with the tracking allocator (requested vs released layout, red zones) natively and AddressSanitizer.", _NOTE, "layout grid under tracking allocator with red zones; ASan", engine="layoutmon"),
     "C18": _t("Abandonment-point enumeration for every builder kind with destructor-log and allocator-outstanding-block oracles.", _NOTE, "abandonment-point enumeration under destructor/allocator logs", engine="layoutmon"),
